@@ -174,6 +174,42 @@ func runC11(c *Ctx) {
 	}
 
 	// ---- R3 ----
+	// sibling agreement: the success and the failure CEA take their configured addresses from the same
+	// settings fields (a builder that consults fewer fields answers with other addresses than its sibling)
+	{
+		sets := map[*ssa.Function]string{}
+		for _, b := range []*ssa.Function{okB, errB} {
+			fields := map[string]bool{}
+			for _, ci := range flow.CallInstrs(b) {
+				if !flow.IsCallTo(ci, pkgDiam, "Message", "NewAVP") {
+					continue
+				}
+				if k, ok := flow.ConstInt(ci.Common().Args[1]); ok && k == 257 {
+					c.settingsFieldsOf(ci.Common().Args[4], fields, 0, map[ssa.Value]bool{})
+				}
+			}
+			// helpers that add the Host-IP-Address AVPs for the builder
+			for _, ci := range flow.CallInstrs(b) {
+				if h := flow.StaticCallee(ci); h != nil && h.Blocks != nil && pkgOf(h) != nil && pkgOf(h).Path() == pkgSM {
+					for _, cj := range flow.CallInstrs(h) {
+						if flow.IsCallTo(cj, pkgDiam, "Message", "NewAVP") {
+							if k, ok := flow.ConstInt(cj.Common().Args[1]); ok && k == 257 {
+								c.settingsFieldsOf(cj.Common().Args[4], fields, 0, map[ssa.Value]bool{})
+							}
+						}
+					}
+				}
+			}
+			var fl []string
+			for f := range fields {
+				fl = append(fl, f)
+			}
+			sort.Strings(fl)
+			sets[b] = strings.Join(fl, ",")
+		}
+		r.Check(sets[okB] == sets[errB], "R3", "CEA-builders:same-address-source", c.fpos(errB), "success and failure CEA read the configured addresses from the same settings fields ["+sets[okB]+"]",
+			fmt.Sprintf("the success CEA takes its configured host addresses from Settings.[%s] but the failure CEA from Settings.[%s]: one of them answers with other addresses than configured", sets[okB], sets[errB]))
+	}
 	for _, b := range []*ssa.Function{okB, errB} {
 		c.checkIdentityAVPs(b, "R3", "Settings")
 		c.c11HostAddresses(b)
@@ -634,21 +670,33 @@ func (c *Ctx) rejectionGuardsLive(rule, typ string) {
 	}
 }
 
-// freshNonNil: v is a value that can never be nil (allocation, composite, conversion of one).
-func freshNonNil(v ssa.Value, d int) bool {
-	if d > 4 {
+// freshNonNil: v is a value that can never be nil (allocation, composite, conversion of one, or the result of
+// appending to one; loop-carried values are judged coinductively).
+func freshNonNil(v ssa.Value, d int) bool { return freshNonNilSeen(v, d, map[ssa.Value]bool{}) }
+
+func freshNonNilSeen(v ssa.Value, d int, seen map[ssa.Value]bool) bool {
+	if d > 8 {
 		return false
 	}
+	if seen[v] {
+		return true
+	}
+	seen[v] = true
 	switch x := v.(type) {
 	case *ssa.MakeSlice, *ssa.Alloc, *ssa.MakeMap, *ssa.MakeChan, *ssa.MakeClosure, *ssa.MakeInterface:
 		return true
 	case *ssa.Slice:
-		return freshNonNil(x.X, d+1)
+		return freshNonNilSeen(x.X, d+1, seen)
 	case *ssa.ChangeType:
-		return freshNonNil(x.X, d+1)
+		return freshNonNilSeen(x.X, d+1, seen)
+	case *ssa.Call:
+		if b, ok := x.Call.Value.(*ssa.Builtin); ok && b.Name() == "append" && len(x.Call.Args) > 0 {
+			return freshNonNilSeen(x.Call.Args[0], d+1, seen)
+		}
+		return false
 	case *ssa.Phi:
 		for _, e := range x.Edges {
-			if !freshNonNil(e, d+1) {
+			if !freshNonNilSeen(e, d+1, seen) {
 				return false
 			}
 		}
@@ -787,5 +835,71 @@ func condOperand(v ssa.Value) ssa.Value {
 			return v
 		}
 		v = u.X
+	}
+}
+
+// settingsFieldsOf collects the names of the Settings fields in the backward slice of v (through phis, slices,
+// element loads, local arrays, helper results and helper parameters).
+func (c *Ctx) settingsFieldsOf(v ssa.Value, out map[string]bool, d int, seen map[ssa.Value]bool) {
+	if v == nil || d > 10 || seen[v] {
+		return
+	}
+	seen[v] = true
+	switch x := v.(type) {
+	case *ssa.UnOp:
+		if tn, fld, _, ok := flow.FieldOf(x); ok && tn == "Settings" {
+			out[fld] = true
+			return
+		}
+		c.settingsFieldsOf(x.X, out, d+1, seen)
+	case *ssa.IndexAddr:
+		c.settingsFieldsOf(x.X, out, d+1, seen)
+	case *ssa.FieldAddr:
+		c.settingsFieldsOf(x.X, out, d+1, seen)
+	case *ssa.Slice:
+		c.settingsFieldsOf(x.X, out, d+1, seen)
+	case *ssa.ChangeType:
+		c.settingsFieldsOf(x.X, out, d+1, seen)
+	case *ssa.MakeInterface:
+		c.settingsFieldsOf(x.X, out, d+1, seen)
+	case *ssa.Phi:
+		for _, e := range x.Edges {
+			c.settingsFieldsOf(e, out, d+1, seen)
+		}
+	case *ssa.Alloc:
+		for _, ref := range flow.Referrers(x) {
+			switch y := ref.(type) {
+			case *ssa.Store:
+				if y.Addr == ssa.Value(x) {
+					c.settingsFieldsOf(y.Val, out, d+1, seen)
+				}
+			case *ssa.IndexAddr:
+				for _, r2 := range flow.Referrers(y) {
+					if st, ok := r2.(*ssa.Store); ok && st.Addr == ssa.Value(y) {
+						c.settingsFieldsOf(st.Val, out, d+1, seen)
+					}
+				}
+			}
+		}
+	case *ssa.Extract:
+		if call, ok := x.Tuple.(*ssa.Call); ok {
+			if g := flow.StaticCallee(call); g != nil && g.Blocks != nil && c.P.IsLibrary(g) {
+				for _, rv := range flow.ReturnValues(g, x.Index) {
+					c.settingsFieldsOf(rv, out, d+1, seen)
+				}
+			}
+		}
+	case *ssa.Call:
+		if g := flow.StaticCallee(x); g != nil && g.Blocks != nil && c.P.IsLibrary(g) {
+			for _, rv := range flow.ReturnValues(g, 0) {
+				c.settingsFieldsOf(rv, out, d+1, seen)
+			}
+		}
+	case *ssa.Parameter:
+		for _, cs := range c.librarySites(x.Parent()) {
+			if i := paramIndex(x.Parent(), x); i < len(cs.Common().Args) {
+				c.settingsFieldsOf(cs.Common().Args[i], out, d+1, seen)
+			}
+		}
 	}
 }
